@@ -127,3 +127,13 @@ CONFIG = {
         'race': True,
     },
 }
+
+# Thorough budgets, sized so that each check takes roughly 3-10 minutes on 16 cores
+# (measured: the first thorough sweep took 8-310 s per check with a tenth of these counts).
+THOROUGH = {'C01': 6000000, 'C02': 6000000, 'C03': 20000000, 'C04': 30000000, 'C05': 4000000, 'C06': 10000000, 'C07': 6000000,
+            'C08': 3000000, 'C09': 4000000, 'C10': 150000, 'C11': 150000, 'C12': 6000000, 'C13': 5000000, 'C14': 10000000,
+            'C15': 500000, 'C16': 10000000, 'C17': 8000000, 'C18': 5000000, 'C19': 1500000, 'C20': 4000000}
+for _k, _v in THOROUGH.items():
+    CONFIG[_k]["thorough"]["checks"] = _v
+    CONFIG[_k]["thorough"]["timeout"] = 7200
+    CONFIG[_k]["thorough"]["shards"] = 14
